@@ -422,9 +422,19 @@ func c10GenLoop(t *rapid.T) c10Scenario {
 			if state[op.P] != "absent" {
 				n = podNode[op.P]
 			}
-			if nodeMissing[n] {
+			switch {
+			case nodeMissing[n]:
 				op.K = "nodeback"
-			} else {
+			case r.KI/32%2 == 0:
+				// the instance behind the node is released: its pods and its Node object vanish, the cloud
+				// deletes or detaches the attached interfaces according to their DeleteOnRelease option
+				op.K = "release"
+				for q := range state {
+					if state[q] != "absent" && podNode[q] == n {
+						state[q] = "absent"
+					}
+				}
+			default:
 				op.K = "nodegone"
 			}
 			nodeMissing[n] = !nodeMissing[n]
@@ -725,5 +735,14 @@ func TestVerifC10KnownRollbackStops(t *testing.T) {
 		Ops: []c10Op{{K: "create"}, {K: "rpod", AF: c10AFCreate, CF: c10CFDelete0}}}
 	vt.Witness(t, "C10", c10KnownRollback,
 		"deleteAllENI returns at the first failed delete, so the remaining interfaces created for the pod are not rolled back and exist without a record",
+		s, func(c *vt.Ctx, s c10Scenario) { c10RunOpt(c, s, true) })
+}
+
+// Deterministic witness of the mixed-pod finding (guard C11-mixed-pod-elastic-eni-deleted-on-release).
+func TestVerifC11KnownMixedPodInstanceRelease(t *testing.T) {
+	s := c10Scenario{Cards: 1, Settle: true, Pods: []c10PodSpec{{Nets: []c10Net{{Fixed: true, Strategy: "TTL", After: "10m"}, {}}}},
+		Ops: []c10Op{{K: "create"}, {K: "rr"}, {K: "release"}, {K: "create", N: 1}}}
+	vt.Witness(t, "C11", c11KnownMixedRelease,
+		"a pod with a fixed-IP and an elastic interface: the elastic interface is created with DeleteOnRelease=true, ECS deletes it when the node's instance is released, the retained record names a dead interface and the recreated pod is never bound (it does not get its fixed interface back either)",
 		s, func(c *vt.Ctx, s c10Scenario) { c10RunOpt(c, s, true) })
 }
